@@ -136,3 +136,46 @@ def panic_sites(body, include_index=True):
                 continue
             out.append(("assert:" + m, "", t["line"], i))
     return out
+
+
+
+def named_argument_rule(ctx, r, scopes, allow=()):
+    """Shared discipline (added after seed C08-2): at a call of a crate-local function, a *named* argument (a variable or a field
+    path such as `config.terminate_on_unlinked`) whose name is the name of a different parameter of the callee has changed places
+    with it. `scopes` = [(crate name, def-path prefix)]. `allow` = {(callee name, argument name): reason}.
+    Evaluated per call site that passes at least one argument carrying a parameter's name."""
+    import re
+    from mirlib import describe_operand
+    ident = re.compile(r"^[A-Za-z_][A-Za-z0-9_.]*$")
+    n = 0
+    for cname, pref in scopes:
+        crate = ctx.crate(cname)
+        by_def = {b.defpath: b for b in crate.all_bodies()}
+        for b in crate.all_bodies():
+            if pref not in b.defpath or "::tests" in b.defpath:
+                continue
+            for c in b.calls:
+                cal = by_def.get(c.defpath)
+                if cal is None or cal.argc < 2 or c.exp:
+                    continue
+                pn = [cal.var_name(i) for i in range(1, cal.argc + 1)]
+                named, bad = [], []
+                for k, a in enumerate(c.args[:cal.argc]):
+                    d = describe_operand(b, a)
+                    if not ident.match(d) or not pn[k] or pn[k] == "self":
+                        continue
+                    an = d.split(".")[-1]
+                    if an in pn:
+                        named.append(an)
+                        if an != pn[k] and (c.name, an) not in allow:
+                            bad.append((k, d, pn[k], an))
+                if not named:
+                    continue
+                n += 1
+                fn = b.defpath.split("::{")[0].split("::")[-1]
+                if bad:
+                    k, d, p_, an = bad[0]
+                    r.bad("%s/%s/arg-%s" % (fn, c.name, p_), c.loc(), "`%s` is passed for parameter `%s` of %s, which also has a parameter `%s`: the arguments have changed places at this call site" % (d, p_, c.name, an))
+                else:
+                    r.ok("%s/%s/%s" % (fn, c.name, "+".join(named)), c.loc(), "named arguments are in their parameters' positions")
+    return n
